@@ -32,6 +32,8 @@ def scheme_list(rng, k_grid):
             ([0, 1, 0, 1024, 1024, 0], [0, 0, 0, 0, 0, 0], 1),
             ([0, 1, 0, 0, 0, 0], [1024, 1024, 0, 1048576, 1048576, 0], 1),
             ([0, 1, 0, 0, 0, 0], [0, 0, 0, 0, 0, 1024], 1)]
+    # positive multiples of named schemes: the same dataset and candidate scored under proportional schemes
+    out += [([0, 8, 8, 0, 8, 8], [8, 8, 0, 8, 8, 0], UNIT), ([0, 12, 6, 0, 0, 0], [6, 6, 0, 0, 0, 0], UNIT)]
     g = core.grid_schemes()
     out += [(B, T, UNIT) for B, T in rng.sample(g, k_grid)]
     return out
